@@ -143,13 +143,36 @@ Definition replace_first (p rep l : str) : str :=
 (* integer parsing: FromStr for u64 / i64 — optional sign ('+', and '-' for i64), then one or
    more ASCII digits, value in range *)
 Definition is_digit (c : N) : bool := (48 <=? c) && (c <=? 57).
-Fixpoint parse_digits (l : str) (acc : N) : option N :=
-  match l with
-  | [] => Some acc
-  | c :: r => if is_digit c then parse_digits r (10 * acc + (c - 48)) else None
+(* decimal digits <-> Coq's Decimal.uint, so that parsing is N.of_uint and printing N.to_uint *)
+Definition digit_of (c : N) : option (Decimal.uint -> Decimal.uint) :=
+  match c with
+  | 48 => Some Decimal.D0 | 49 => Some Decimal.D1 | 50 => Some Decimal.D2 | 51 => Some Decimal.D3
+  | 52 => Some Decimal.D4 | 53 => Some Decimal.D5 | 54 => Some Decimal.D6 | 55 => Some Decimal.D7
+  | 56 => Some Decimal.D8 | 57 => Some Decimal.D9 | _ => None
   end.
+Fixpoint uint_of_str (l : str) : option Decimal.uint :=
+  match l with
+  | [] => Some Decimal.Nil
+  | c :: r => match digit_of c, uint_of_str r with
+              | Some d, Some u => Some (d u)
+              | _, _ => None
+              end
+  end.
+Fixpoint str_of_uint (u : Decimal.uint) : str :=
+  match u with
+  | Decimal.Nil => []
+  | Decimal.D0 r => 48 :: str_of_uint r | Decimal.D1 r => 49 :: str_of_uint r
+  | Decimal.D2 r => 50 :: str_of_uint r | Decimal.D3 r => 51 :: str_of_uint r
+  | Decimal.D4 r => 52 :: str_of_uint r | Decimal.D5 r => 53 :: str_of_uint r
+  | Decimal.D6 r => 54 :: str_of_uint r | Decimal.D7 r => 55 :: str_of_uint r
+  | Decimal.D8 r => 56 :: str_of_uint r | Decimal.D9 r => 57 :: str_of_uint r
+  end.
+(* one or more ASCII digits *)
 Definition parse_nat_str (l : str) : option N :=
-  match l with [] => None | _ => parse_digits l 0 end.
+  match l with
+  | [] => None
+  | _ => match uint_of_str l with Some u => Some (N.of_uint u) | None => None end
+  end.
 Definition u64_max : N := 18446744073709551615.
 Definition parse_u64 (l : str) : option N :=
   let body := match l with 43 :: r => r | _ => l end in
@@ -169,13 +192,7 @@ Definition parse_i64 (l : str) : option Z :=
   end.
 
 (* decimal rendering (i64::to_string / usize::to_string) *)
-Fixpoint digits_f (fuel : nat) (n : N) (acc : str) : str :=
-  match fuel with
-  | O => acc
-  | S f => let acc' := (48 + n mod 10) :: acc in
-           if n <? 10 then acc' else digits_f f (n / 10) acc'
-  end.
-Definition n_to_str (n : N) : str := digits_f (S (N.to_nat (N.log2 n))) n [].
+Definition n_to_str (n : N) : str := str_of_uint (N.to_uint n).
 Definition z_to_str (z : Z) : str :=
   match z with
   | Z0 => [48]
